@@ -45,14 +45,20 @@ func newC04World(ctx *rt.Ctx, p c04Params) *c04World {
 		rt.Harnessf("build: %v", err)
 	}
 	w := &c04World{sw: &swapCache{}, data: model.FromRows(rows), path: path}
-	w.idx, err = ix.Open(path, p.Preload, w.sw)
+	var cache updog.Cache // "none" = opened without a cache option at all
+	if p.Cache != "none" {
+		cache = w.sw
+	}
+	w.idx, err = ix.Open(path, p.Preload, cache)
 	if err != nil {
 		rt.Harnessf("open: %v", err)
 	}
 	cp := &capture{}
-	w.sw.inner = cp
-	w.idx.Execute(&updog.Query{Expr: model.Eq("a", "1").Updog()})
-	w.sw.inner = nil
+	if p.Cache != "none" {
+		w.sw.inner = cp
+		w.idx.Execute(&updog.Query{Expr: model.Eq("a", "1").Updog()})
+		w.sw.inner = nil
+	}
 	w.leaf = 100
 	if cp.last != nil {
 		w.leaf = cp.last.GetSizeInBytes()
@@ -464,13 +470,13 @@ func c04RaceServer(ctx *rt.Ctx) []*rt.Violation {
 	if bin == "" {
 		rt.Harnessf("VCHECK_UPDOG_RACE_BIN not set")
 	}
-	rows := c13Files()[2]
+	rows := c13Files()[3]
 	path, _, err := ix.Build(ctx.Scratch, rows, ix.MemFile)
 	if err != nil {
 		rt.Harnessf("build: %v", err)
 	}
 	defer os.Remove(path)
-	qs := c13Queries(2)
+	qs := c13Queries(3)
 	mk := func(ids ...int) *updogv1.QueryRequest {
 		r := &updogv1.QueryRequest{}
 		for _, i := range ids {
